@@ -58,7 +58,7 @@ SIMPLE: Dict[str, Dict[str, List[Any]]] = {
                   "bias": [True, False]},
     "RMSNorm": {"n": [5, 8], "nd": [1, 2], "eps": [1e-5, 1e-2], "elementwise_affine": [False, True]},
     "Embedding": {"V": [6, 11], "D": [3, 5], "padding_idx": [None, 0, -1], "max_norm": [None, 1.0],
-                  "norm_type": [2.0, 1.0]},
+                  "norm_type": [2.0, 1.0], "_freeze": [False, True]},
     "CrossEntropyLoss": {"mult": [1.0, 0.25, 3.0], "ignore_index": [-100, 1], "ignore": ["none", "some"],
                          "reduction": ["mean", "sum"], "N": [4, None]},
 }
@@ -145,8 +145,10 @@ def _build_simple(cls: str, o: Dict[str, Any]) -> Any:
         tw = nn.RMSNorm(list(ns), eps=o["eps"], elementwise_affine=o["elementwise_affine"], dtype=dt)
         return m, tw, "rms_norm", dict(o, weight=o["elementwise_affine"])
     if cls == "Embedding":
-        m = uu.Embedding(o["V"], o["D"], padding_idx=o["padding_idx"], max_norm=o["max_norm"], norm_type=o["norm_type"], dtype=dt)
-        tw = nn.Embedding(o["V"], o["D"], padding_idx=o["padding_idx"], max_norm=o["max_norm"], norm_type=o["norm_type"], dtype=dt)
+        m = uu.Embedding(o["V"], o["D"], padding_idx=o["padding_idx"], max_norm=o["max_norm"], norm_type=o["norm_type"],
+                         _freeze=o["_freeze"], dtype=dt)
+        tw = nn.Embedding(o["V"], o["D"], padding_idx=o["padding_idx"], max_norm=o["max_norm"], norm_type=o["norm_type"],
+                          _freeze=o["_freeze"], dtype=dt)
         return m, tw, "embedding", dict(o, n=4)
     if cls == "CrossEntropyLoss":
         m = uu.CrossEntropyLoss(mult=o["mult"], ignore_index=o["ignore_index"], reduction=o["reduction"])
@@ -176,6 +178,13 @@ def _simple(case: Dict[str, Any]) -> Dict[str, Any]:
         finally:
             pass
         return {"violations": [exception_violation(e, ident + "|construct")], "outcome": "raises"}
+    if twin is not None:
+        # trainability of every parameter as in the torch.nn twin built with the same options
+        tp, mp = dict(twin.named_parameters()), dict(m.named_parameters())
+        for k in tp:
+            if k in mp and tp[k].requires_grad != mp[k].requires_grad:
+                viol.append({"key": ident + f"|requires_grad_differs_from_torch_twin|{k}",
+                             "msg": f"options={o}: {k}.requires_grad={mp[k].requires_grad}, nn.{cls}: {tp[k].requires_grad}"})
     op = OPS[opname]
     cfg = dict(default_cfg(op), dtype="float64")
     cfg.update({k: v for k, v in ocfg.items() if k in op.coords})
